@@ -14,6 +14,9 @@ K0 == <<>>
 K1 == <<"k1">>
 K2 == <<"k1", "k2">>
 K3 == <<"k1", "k2", "k3">>
+K5 == <<"k1", "k2", "k3", "k4", "k5">>
+NoKeys == {}
+AllKeys == Keys
 N0 == <<>>
 N1 == <<"a">>
 N2 == <<"a", "b">>
